@@ -137,6 +137,21 @@ theorem acceptR_sound {h : List HOp} (hacc : acceptR h = true)
         ¬ (w.resStamp < u.invStamp ∧ u.resStamp < g.invStamp) :=
   acceptR_sound_aux hacc hg hop hres
 
+/-- **Search completeness.** The per-key search never misses a certificate: a key's
+operations are accepted iff *some* linear order of them passes the independent checker
+`checkLin` (a permutation of the operations that respects real time and replays). -/
+theorem acceptKey_complete (ops : List HOp) :
+    acceptKey ops = true ↔ ∃ L, checkLin ops L = true :=
+  acceptKey_iff ops
+
+/-- **Acceptor completeness w.r.t. model R.** The history recorded from any complete
+(`complete evs`: every invoked operation responded) well-formed execution of R — stamps =
+positions of the invoke / respond events — is accepted.  So a rejected recorded history is
+not producible by R: the implementation left the model. -/
+theorem acceptR_complete {evs : List Ev} (hwf : WF evs) (hc : complete evs = true) :
+    acceptR (historyOf evs) = true :=
+  acceptR_complete_aux hwf hc
+
 /-! ## Non-vacuity: a concrete interleaved execution (3 threads, key 7)
 
 Thread 1 writes 100 then 101, thread 2 reads concurrently (its gets overlap the inserts),
@@ -223,13 +238,19 @@ example : (none : Option Val) = none :=
 
 /-! ## Non-vacuity of the acceptor -/
 
-/-- A recorded history of `exR` (stamps = positions of the invoke / respond events). -/
-def hR : List HOp :=
-  [ ⟨1, 0, 5, .ins 7 100, none⟩, ⟨2, 1, 4, .get 7, some 100⟩,
+/-- The recorded history of `exR` (stamps = positions of the invoke / respond events). -/
+def hR : List HOp := historyOf exR
+
+example : hR =
+  [ ⟨2, 1, 4, .get 7, some 100⟩, ⟨1, 0, 5, .ins 7 100, none⟩,
     ⟨1, 6, 11, .ins 7 101, none⟩, ⟨2, 7, 12, .get 7, some 101⟩,
-    ⟨3, 13, 16, .del 7, none⟩, ⟨1, 14, 21, .ins 8 5, none⟩, ⟨2, 17, 20, .get 7, none⟩ ]
+    ⟨3, 13, 16, .del 7, none⟩, ⟨2, 17, 20, .get 7, none⟩, ⟨1, 14, 21, .ins 8 5, none⟩ ] := by
+  decide
 
 example : acceptR hR = true := by decide
+
+/-- … as `acceptR_complete` predicts. -/
+example : acceptR hR = true := acceptR_complete (by decide) (by decide)
 
 /-- Stale read: insert 100 then insert 101 both completed before the get began. -/
 example : acceptR [⟨1, 0, 1, .ins 7 100, none⟩, ⟨1, 2, 3, .ins 7 101, none⟩,
@@ -257,6 +278,8 @@ example : ∃ w ∈ hR, w.op = .ins 7 101 ∧ w.invStamp < 12 ∧
 #print axioms C02_final
 #print axioms C07_reader
 #print axioms acceptR_sound
+#print axioms acceptKey_complete
+#print axioms acceptR_complete
 
 end ConcR
 end MiniMoka
